@@ -29,7 +29,7 @@ Is(k) == l <= Len(Traces[tid]) /\ Ev.e = k
 Step == l' = l + 1 /\ UNCHANGED tid
 Vec(v) == [n |-> v[1], d |-> v[2], x |-> v[3], p |-> v[4]]
 MetaOf(m) == [q |-> m.q, topic |-> m.topic, prio |-> m.prio, due |-> m.due, exp |-> m.exp, dl |-> m.dl, ver |-> m.ver]
-NoCall == [op |-> "none", c |-> 0, i |-> 0, m |-> Meta0, done |-> FALSE, t0 |-> 0]
+NoCall == [op |-> "none", c |-> 0, i |-> 0, m |-> Meta0, done |-> FALSE, t0 |-> 0, h0 |-> FALSE]
 Call(k) == IF k \in DOMAIN calls THEN calls[k] ELSE NoCall
 Done(k) == calls' = [calls EXCEPT ![k].done = TRUE]
 
@@ -63,7 +63,8 @@ TTime == /\ Is("time") /\ Step
          /\ UNCHANGED <<st, loc, meta, holder, origin, deliv, ret, cons, norder, transit, pend, calls, chk, devs>>
 
 TBegin == /\ Is("begin") /\ Step
-          /\ calls' = (Ev.k :> [op |-> Ev.op, c |-> Ev.c, i |-> Ev.i, m |-> MetaOf(Ev.m), done |-> FALSE, t0 |-> now]) @@ calls
+          /\ calls' = (Ev.k :> [op |-> Ev.op, c |-> Ev.c, i |-> Ev.i, m |-> MetaOf(Ev.m), done |-> FALSE, t0 |-> now,
+                                h0 |-> (Ev.i # 0 /\ Ev.c # 0 /\ Held(Ev.c, Ev.i))]) @@ calls
           /\ IF Ev.op = "start" THEN Start(Ev.c)
              ELSE UNCHANGED vars
           /\ UNCHANGED <<chk, devs>>
@@ -142,11 +143,14 @@ TEnd ==
                       /\ ("content" \in chk => meta[Ev.i].ver = Ev.ver)  \* C07: what was enqueued is what arrives
                       /\ Done(k)
                  ELSE UNCHANGED vars /\ Done(k)
-            [] cl.op \in {"ack", "nack", "reject", "enqueue"} ->
+            [] cl.op = "enqueue" ->
                  /\ (Ev.st = "ok" => cl.done)
                  /\ UNCHANGED vars /\ UNCHANGED calls
+            [] cl.op \in {"ack", "nack", "reject"} ->
+                 /\ ((Ev.st = "ok" /\ cl.h0) => cl.done)    \* (a call on a message the caller does not hold is the caller's fault)
+                 /\ UNCHANGED vars /\ UNCHANGED calls
             [] cl.op = "requeue" ->
-                 /\ (Ev.st = "ok" => cl.done)
+                 /\ ((Ev.st = "ok" /\ cl.h0) => cl.done)
                  /\ ~transit[cl.i]                          \* never left in the remove/add gap
                  /\ UNCHANGED vars /\ UNCHANGED calls
             [] cl.op = "finish" ->
